@@ -128,6 +128,21 @@ theorem helicity_repetition (n : List (ℝ × ℝ)) (k : Nat) (s : Int) :
   unfold quadrants
   rw [map_rep, counter_rep]
 
+/-! ### the sign factor `sG·spsi` (C07, field reversal) -/
+
+theorem counter_neg (q : List Int) (s : Int) : counter q (-s) = -counter q s := by
+  cases q with
+  | nil => simp [counter]
+  | cons a l => simp only [counter]; ring
+
+/-- **C07 (field reversal)**: negating both `sG` and `spsi` leaves the counter unchanged; negating one negates it -/
+theorem counter_field_reversal (q : List Int) (sG spsi : Int) :
+    counter q ((-sG) * (-spsi)) = counter q (sG * spsi) ∧ counter q ((-sG) * spsi) = -counter q (sG * spsi)
+      ∧ counter q (sG * (-spsi)) = -counter q (sG * spsi) := by
+  refine ⟨by rw [neg_mul_neg], ?_, ?_⟩
+  · rw [neg_mul, counter_neg]
+  · rw [mul_neg, counter_neg]
+
 /-- non-vacuity: one turn started at its third point, and three turns as a repetition -/
 example : counter ([1, 2, 3, 4].rotate 2) 1 = 4 := by decide
 example : counter (rep 3 [1, 2, 3, 4]) 1 = 12 := by decide
